@@ -115,6 +115,13 @@ def run_job(job, attrs_csv):
     import pandas as pd
     opt_csv = pd.read_csv("data/no_food_trade/animal_feed_data/species_options.csv")
     opt_csv = opt_csv[opt_csv["scenario"] == strat].set_index("animal")
+    # the livestock-unit factor of a species is the one of the country's FAO region (FAO_country_region_mappings.csv; Eswatini is
+    # listed under SWZ; a code that is not listed counts as "Other"), read from regional_conversion_factors.csv - not what the
+    # simulated object says about itself
+    # (a code listed twice - the USA is, as "Caribbean" and as "North America" - takes its first row, see DESIGN 7.1 N6)
+    region_of = pd.read_csv("data/no_food_trade/animal_feed_data/FAO_country_region_mappings.csv").drop_duplicates("alpha3").set_index("alpha3")["FAO-region-EK"].to_dict()
+    regional = pd.read_csv("data/no_food_trade/animal_feed_data/regional_conversion_factors.csv").set_index("animal")
+    region = region_of.get("SWZ" if cc == "SWT" else cc, "Other")
     for a in animals:
         row = attrs_csv.loc[a.animal_type]
         # target size and baseline slaughter as the requested strategy configures them (species_options.csv), applied to the
@@ -133,7 +140,8 @@ def run_job(job, attrs_csv):
             targetObj=num(a.target_population_head),
             baseSlObj=num(a.baseline_slaughter),
             lsu=num(float(row["LSU"])),
-            factor=num(a.LSU_factor),
+            factor=num(float(regional[region].to_dict()[a.animal_species])),
+            factorObj=num(a.LSU_factor),
             kcalHead=num(KCAL_HEAD[meat_class(a.animal_type, str(row["animal size"]))]),
         )
         pop0[a.animal_type] = num(a.population[0])
